@@ -67,6 +67,8 @@ var c14Shapes = []c14Shape{
 	{name: "setop-and-3", n: 3, query: `sum(count_over_time({container=~"n0|n2"}[5s])) and sum(count_over_time({container="n1"}[5s]))`, params: logqlengine.EvalParams{Start: otelstorage.Timestamp(4 * sec), End: otelstorage.Timestamp(4 * sec), Limit: -1}},
 	{name: "log-big-2", n: 2, big: true, query: `{}`, params: logqlengine.EvalParams{Start: 0, End: otelstorage.Timestamp(10 * sec), Step: time.Second, Limit: -1}},
 	{name: "count-big-1", n: 1, big: true, query: `bytes_over_time({}[5s])`, params: logqlengine.EvalParams{Start: otelstorage.Timestamp(4 * sec), End: otelstorage.Timestamp(4 * sec), Limit: -1}},
+	{name: "lit-bool-2", n: 2, query: `sum by (container) (count_over_time({}[5s])) + bool 2`, params: logqlengine.EvalParams{Start: otelstorage.Timestamp(4 * sec), End: otelstorage.Timestamp(4 * sec), Limit: -1}},
+	{name: "lit-left-pow-2", n: 2, query: `2 ^ bool sum(count_over_time({}[5s]))`, params: logqlengine.EvalParams{Start: otelstorage.Timestamp(2 * sec), End: otelstorage.Timestamp(4 * sec), Step: time.Second, Limit: -1}},
 	{name: "binop-2x2", n: 2, query: `sum(count_over_time({}[3s])) / sum(count_over_time({} |= "m"[2s]))`, params: logqlengine.EvalParams{Start: otelstorage.Timestamp(2 * sec), End: otelstorage.Timestamp(4 * sec), Step: time.Second, Limit: -1}},
 }
 
